@@ -401,6 +401,7 @@ func checkC18(w *World, r *Report) {
 			panic(undecided{"schema.checkMandatory"})
 		}
 		sym := NewSym(w)
+		sym.Expand = false // the verdict of isAChoice is taken as one condition, however it is computed
 		// the table the errors are produced from: a map of nodes that is ranged over
 		ranged := map[ssa.Value]bool{}
 		for _, b := range f.Blocks {
